@@ -113,7 +113,7 @@ impl Sim for SimC7 {
         ]
     }
     fn default_runs(&self) -> (u64, u64) {
-        (6_000, 300_000)
+        (600_000, 20_000_000)
     }
 
     fn plan(&self, rng: &mut Rng, sub: usize) -> ScenarioC7 {
@@ -611,7 +611,7 @@ impl Sim for SimC4 {
         vec!["single_exchange", "multi_exchange_shared_names"]
     }
     fn default_runs(&self) -> (u64, u64) {
-        (4_000, 200_000)
+        (400_000, 15_000_000)
     }
 
     fn plan(&self, rng: &mut Rng, sub: usize) -> ScenarioC4 {
